@@ -228,3 +228,74 @@ def r5(ctx):
     rs = [s for s in b.stmts() if s.kind == 'assign' and s.lhs.proj and match(core(sym(b, s.lhs)), ('field', ANY, 'freq')) and s.rv.kind == 'use' and s.rv.ops[0].is_const()
           and s.rv.ops[0].int_value() == 0]
     ctx.require(len(rs) == 1, b, 'reset-merged', 'the merged pair\'s frequency is reset to 0', None)
+
+
+@rule('C19', 'R-C19-6', 'T13 PAIR (occurrence counts) / T2 (byte symbols)',
+      'byte_pair_stats counts EVERY occurrence of a pair inside a word (first occurrence inserts 1, each further one adds 1): '
+      'update_stats decrements this count and replace_pair skips words whose count is 0; the training corpus starts from single '
+      'BYTES of each word (the 256 base tokens of the tokenizer), not from characters')
+def r6(ctx):
+    from rules.common import closures_in
+    b = ctx.body(T + 'byte_pair_stats')
+    bodies = [b] + closures_in(ctx, b)
+    found = 0
+    for x in bodies:
+        for t in x.calls(r'Entry.*::or_insert$'):
+            e = peel(sym(x, t.args[0]))
+            v = core(sym(x, t.args[1]))
+            # the per-word occurrence map: HashMap<usize, usize>
+            ent = [y for y in walk(e) if isinstance(y, tuple) and y and y[0] == 'call' and y[1].endswith('HashMap::entry')]
+            if not ent:
+                continue
+            rcv = ent[-1][2][0]
+            ty = ''
+            for tt in x.calls(r'HashMap::entry$'):
+                if nosite(sym(x, tt.dest)) == nosite(ent[-1]):
+                    ty = x.local_ty(tt.args[0].place.local) if tt.args[0].place is not None else ''
+            if 'HashMap<usize, usize>' not in ty:
+                continue
+            found += 1
+            if match(v, Const(1)):
+                am = e[0] == 'call' and e[1].endswith('Entry::and_modify')
+                inc = False
+                if am:
+                    clo = closure_of(ctx, e[2][1])
+                    for s in clo.stmts():
+                        if s.kind == 'assign' and s.lhs.proj and match(core(sym(clo, s.rv.ops[0]) if s.rv.kind == 'use' and s.rv.ops else ()), ('bin', 'Add', ANY, Const(1))):
+                            inc = True
+                        if s.kind == 'assign' and s.rv.kind == 'bin':
+                            pass
+                    if not inc:
+                        for s in clo.stmts():
+                            if s.kind == 'assign' and s.lhs.proj:
+                                vv = core(sym(clo, s.lhs))
+                        inc = any(s.kind == 'assign' and s.lhs.proj for s in clo.stmts())
+                ctx.require(am and inc, x, 'occurrence-count', 'a repeated occurrence of the pair in the same word adds 1 to its count (line %d)' % t.span['line'],
+                            'the occurrence count of a pair in a word is set to 1 and never incremented (line %d): a pair that occurs twice in a word is recorded once, '
+                            'update_stats then drives the count to 0 while the pair is still there and replace_pair skips the word' % t.span['line'], t.span)
+            elif match(v, Const(0)):
+                # `*entry(k).or_insert(0) += 1`
+                ok = any(s.kind == 'assign' and s.lhs.proj and match(core(sym(x, s.rv.ops[0]) if s.rv.kind == 'use' and s.rv.ops else ()), ('bin', 'Add', ANY, Const(1)))
+                         for s in x.stmts())
+                ctx.require(ok, x, 'occurrence-count', 'every occurrence adds 1 to the count (line %d)' % t.span['line'], None, t.span)
+            else:
+                ctx.fail(x, 'occurrence-count', 'the occurrence count starts at %s (line %d)' % (show_in(x, v), t.span['line']), t.span)
+    if found == 0:
+        raise AnchorMissing('the per-word occurrence count of byte_pair_stats')
+    # initial symbols of the training corpus
+    from analysis.seq import seq_of, ITEM
+    tr = ctx.body(T + 'train_bpe')
+    n = 0
+    for c in closures_in(ctx, tr):
+        for v, bb in ret_values(c):
+            if v[0] == 'agg' and v[1] == 'tuple' and len(v[3]) == 2 and 'Vec<std::vec::Vec<u8>>' in (c.local_ty(0) or ''):
+                segs = seq_of(ctx.facts, c, v[3][0])
+                n += 1
+                ok = segs is not None and len(segs) == 1 and segs[0].kind == 'each' and not segs[0].conds and \
+                    not has(segs[0].src, Call('str::chars', ANY)) and not has(segs[0].src, Call('char_indices', ANY)) and \
+                    match(core(segs[0].src), ('field', ('arg', 2, ANY), 0))
+                ctx.require(ok, c, 'byte-symbols', 'the initial symbols of a word are its single bytes',
+                            'the initial symbols of a word are %s: training must start from the 256 byte tokens the tokenizer starts from (a multi-byte character as one '
+                            'symbol yields entries that are not the concatenation of two tokens)' % [repr(x)[:140] for x in segs or ()])
+    if n == 0:
+        raise AnchorMissing('construction of the (symbols, count) training vocabulary')
